@@ -14,7 +14,7 @@ VARIABLES sc, emitted
 Names  == {"ok", "empty"}
 Idxs   == {"ok", "empty", "one", "three", "alpha", "mixed", "sign", "space", "unicode", "fullwidth",
            "arabic1", "persian1", "nko1", "latin1", "plus", "dot", "hex", "exp", "newline"}
-Masks  == {"zero", "subset", "all", "foreign", "high", "sign"}
+Masks  == {"zero", "subset", "all", "foreign", "high", "sign", "cfgerror"}
 Stalls == {"none", "noregister", "noconfigure"}
 
 Att(n, i, m, s) == [name |-> n, idx |-> i, mask |-> m, stall |-> s]
@@ -22,7 +22,7 @@ Good == Att("ok", "ok", "subset", "none")
 \* every class combination that does not stall (cheap), and each stall with a few identities
 Single == {Att(n, i, m, "none") : n \in Names, i \in Idxs, m \in Masks}
      \cup {Att(n, i, "zero", s) : n \in Names, i \in {"ok", "alpha"}, s \in Stalls \ {"none"}}
-Bads == {Att("empty", "ok", "zero", "none"), Att("ok", "three", "zero", "none"), Att("ok", "ok", "foreign", "none"),
+Bads == {Att("ok", "ok", "cfgerror", "none"), Att("empty", "ok", "zero", "none"), Att("ok", "three", "zero", "none"), Att("ok", "ok", "foreign", "none"),
          Att("ok", "ok", "sign", "none"), Att("ok", "ok", "zero", "noregister"), Att("ok", "ok", "zero", "noconfigure")}
 
 Scenarios ==
